@@ -253,6 +253,124 @@ void vf_harness()
 
 
 
+def unit_block_single_point():
+    """block kriging with a single discretisation point equals point kriging: the block is then the target point itself, for the estimate AND for the
+    variance term C(v,v) — KNOWN FINDING: the second (randomised) discretisation used for C(v,v) does not coincide with the point"""
+    from tools.vf import Fn, Unit
+    pre = """
+typedef _Bool bool;
+#define true 1
+#define false 0
+#define ND 2
+#define NT 4
+double nondet_double(void);
+static int getNDim(void) { return W_ndim; }
+static int VF_product(const int* nd) { int p = 1; for (int k = 0; k < ND; k++) if (k < W_ndim) p = p * nd[k]; return p; }
+static int law_get_random_seed(void) { return 0; } static void law_set_random_seed(int s) {}
+static double law_uniform(double a, double b) { double u = nondet_double(); __CPROVER_assume(u >= a && u <= b); return u; }
+static double getDX(int idim) { return W_dx[idim]; }
+static double VF_blex(int iech, int idim) { return W_blex[idim]; }
+double G_out[NT][ND];
+"""
+    f = Fn("DbGrid::getDiscretizedBlock", "src/Db/DbGrid.cpp", r"^VectorVectorDouble DbGrid::getDiscretizedBlock\(const VectorInt &ndiscs,[^{]*?int seed\) const\s*$",
+           csig="void getDiscretizedBlock(const int* ndiscs, int iech, bool flagPerCell, bool flagRandom, int seed)",
+           rewrites=[(r"VH::product\(ndiscs\)", "VF_product(ndiscs)", 1), (r"VectorVectorDouble discs\(ntot\);", 'double discs[NT][ND]; __CPROVER_assert(0 <= ntot && ntot <= NT, "modelled capacity");', 1),
+                     (r"for \(int i = 0; i < ntot; i\+\+\) discs\[i\]\.resize\(ndim\);", ";", 1), (r"getLocVariable\(ELoc::BLEX, iech, idim\)", "VF_blex(iech, idim)", 1),
+                     (r"return discs;", "for (int vf_i = 0; vf_i < NT; vf_i++) for (int vf_d = 0; vf_d < ND; vf_d++) G_out[vf_i][vf_d] = discs[vf_i][vf_d]; return;", 1)])
+    h = """
+void vf_harness(void)
+{
+  vf_havoc_inputs();
+  __CPROVER_assume(1 <= W_ndim && W_ndim <= ND);
+  for (int k = 0; k < ND; k++) __CPROVER_assume(W_dx[k] > 0. && W_dx[k] < 1.e6 && W_blex[k] > 0. && W_blex[k] < 1.e6);
+  int one[ND]; for (int k = 0; k < ND; k++) one[k] = 1;          /* a single discretisation point */
+  getDiscretizedBlock(one, 0, W_percell, 0, 1234546);
+  for (int k = 0; k < ND; k++) if (k < W_ndim) __CPROVER_assert(G_out[0][k] == 0., "single discretisation point, regular discretisation: the point is the target itself");
+  getDiscretizedBlock(one, 0, W_percell, 1, 1234546);
+  for (int k = 0; k < ND; k++) if (k < W_ndim) __CPROVER_assert(G_out[0][k] == 0., "single discretisation point, discretisation used for the block variance C(v,v): the point is the target itself (so that C(v,v) = C(0) as in point kriging)");
+  VF_REACH();
+}
+"""
+    return Unit("C04.block.single_point", [f], prelude=pre, harness=h, pre_inputs="typedef _Bool bool;\n", unwind=6, checks=["--bounds-check", "--pointer-check"], backends=("minisat", "cadical"), timeout=300,
+                inputs=[("int", "W_ndim"), ("double", "W_dx", "2"), ("double", "W_blex", "2"), ("bool", "W_percell")],
+                bounded="space dimension <= 2 (unwinding assertions)",
+                claim=("DbGrid::getDiscretizedBlock with a single discretisation point per direction (block kriging that should equal point kriging): the regular discretisation is the "
+                       "target point; the randomised one, from which KrigingSystem::_covCvvCalcul computes C(v,v), should be too — it is not: KNOWN FINDING"),
+                assumptions=["law_uniform returns an arbitrary value of its interval"])
+
+
+def unit_migrate_ball():
+    """nearest-point migration through the ball tree equals the exhaustive search: value of the nearest ACTIVE input sample among those admitted by dmax"""
+    from tools.vf import Fn, Unit
+    NI, NO = 3, 2
+    pre = """
+typedef _Bool bool;
+#define true 1
+#define false 0
+#define NI %d
+#define NO %d
+#define TEST 1.234e30
+typedef struct { int a[NI]; int n; } ivec;
+int g_usesel, g_oob;
+/* the ball tree: holds the active samples of db1 (relative ranks) when built with useSel, all samples (absolute ranks) otherwise; queryClosest = nearest member */
+static void VF_ball_init(bool usesel) { g_usesel = usesel ? 1 : 0; }
+static int VF_queryClosest(int inode)
+{
+  int best = -1, rel = 0, bestrel = -1;
+  for (int i = 0; i < NI; i++) { if (g_usesel && !W_actin[i]) continue; if (best < 0 || W_d[inode * NI + i] < W_d[inode * NI + best]) { best = i; bestrel = rel; } rel++; }
+  if (best < 0) return -1234567;
+  return g_usesel ? bestrel : best;
+}
+static ivec VF_ranksActive(void) { ivec r; r.n = 0; for (int i = 0; i < NI; i++) if (W_actin[i]) { r.a[r.n] = i; r.n = r.n + 1; } return r; }
+static int g_cur_in, g_cur_out;
+static double distance_inter(int dba, int dbb, int ia, int ib, double* dvect)
+{ /* called (db2, db1, inode, iech): the pair under examination */
+  if (ia < 0 || ia >= NO || ib < 0 || ib >= NI) { g_oob = 1; return 0.; } g_cur_out = ia; g_cur_in = ib; return W_d[ia * NI + ib]; }
+static int st_larger_than_dmax(int ndim, const double* dvect, int distType, bool dmax_given) { return W_far[g_cur_out * NI + g_cur_in] ? 1 : 0; }
+static double VF_getArray(int iech) { if (iech < 0 || iech >= NI) { g_oob = 1; return 0.; } return W_val[iech]; }
+""" % (NI, NO)
+    f = Fn("CalcMigrate::_expandPointToPointBall", "src/Calculators/CalcMigrate.cpp", r"^int CalcMigrate::_expandPointToPointBall\(Db \*db1,[^{]*?VectorDouble &tab\)\s*$",
+           csig="int _expandPointToPointBall(int db1, int db2, int iatt, int distType, bool dmax, double* tab)",
+           rewrites=[(r"! db1->hasSameDimension\(db2\)", "0", 1), (r"db1->getNDim\(\)", "2", 1), (r"VectorDouble coor\(ndim\);", "double coor[2];", 1), (r"VectorDouble dvect\(ndim\);", "double dvect[2];", 1),
+                     (r"Ball ball\(db1, nullptr, leaf_size, \d+, (true|false)\);", r"VF_ball_init(\1);", "opt"), (r"Ball ball\(db1, nullptr, leaf_size\);", "VF_ball_init(false);", "opt"),
+                     (r"VectorInt ranks = db1->getRanksActive\(\);", "ivec ranks = VF_ranksActive();", "opt"), (r"\(int\) ranks\.size\(\)", "ranks.n", "opt"), (r"ranks\[(\w+)\]", r"ranks.a[\1]", "opt"),
+                     (r"db2->getSampleNumber\(\)", "NO", 1), (r"db2->isActive\(inode\)", "W_actout[inode]", 1), (r"db2->getCoordinatesPerSampleInPlace\(inode, coor\);", "(void) coor;", 1),
+                     (r"ball\.queryClosest\(coor\)", "VF_queryClosest(inode)", 1), (r"dmax\.empty\(\)", "(!dmax)", None), (r"dvect\.data\(\)", "dvect", None),
+                     (r"db1->getArray\((\w+), iatt\)", r"VF_getArray(\1)", 1)])
+    h = """
+void vf_harness(void)
+{
+  vf_havoc_inputs();
+  for (int k = 0; k < NO * NI; k++) { __CPROVER_assume(W_d[k] >= 0. && W_d[k] < 1.e6); for (int m = 0; m < k; m++) __CPROVER_assume(W_d[m] != W_d[k]); }   /* no ties */
+  for (int k = 0; k < NI; k++) __CPROVER_assume(W_val[k] > -1.e6 && W_val[k] < 1.e6);
+  if (!W_dmax) for (int k = 0; k < NO * NI; k++) __CPROVER_assume(!W_far[k]);
+  double tab[NO]; for (int k = 0; k < NO; k++) tab[k] = TEST;
+  g_oob = 0;
+  int rc = _expandPointToPointBall(1, 2, 0, W_disttype, W_dmax ? 1 : 0, tab);
+  __CPROVER_assert(rc == 0 && !g_oob, "every sample rank handed to the data bases is a valid rank");
+  for (int o = 0; o < NO; o++)
+  {
+    /* exhaustive search: the nearest ACTIVE input sample among those admitted by dmax */
+    int best = -1;
+    for (int i = 0; i < NI; i++) if (W_actin[i] && !W_far[o * NI + i] && (best < 0 || W_d[o * NI + i] < W_d[o * NI + best])) best = i;
+    if (!W_actout[o]) __CPROVER_assert(tab[o] == TEST, "a masked target is left untouched");
+    else if (best < 0) __CPROVER_assert(tab[o] == TEST, "no admissible active sample: the target keeps the undefined value");
+    else __CPROVER_assert(tab[o] == W_val[best], "the target receives the value of the nearest active input sample admitted by dmax, as the exhaustive search does");
+  }
+  VF_REACH();
+}
+"""
+    return Unit("C04.migrate.ball_equals_exhaustive", [f], prelude=pre, harness=h, pre_inputs="typedef _Bool bool;\n", unwind=NI * NO + 2, checks=["--bounds-check", "--pointer-check"],
+                backends=("minisat", "cadical"), timeout=600,
+                inputs=[("double", "W_d", str(NI * NO)), ("bool", "W_far", str(NI * NO)), ("double", "W_val", str(NI)), ("bool", "W_actin", str(NI)), ("bool", "W_actout", str(NO)), ("bool", "W_dmax"), ("int", "W_disttype")],
+                bounded="%d input samples, %d targets (unwinding assertions)" % (NI, NO),
+                claim=("CalcMigrate::_expandPointToPointBall (nearest-point migration through the ball tree, real text; the tree, the distances and the dmax test are tables): every active target "
+                       "receives the value of the nearest ACTIVE input sample among those admitted by dmax — what the exhaustive search (_expandPointToPoint) computes — masked targets stay untouched"),
+                assumptions=["Ball::queryClosest = nearest member of the tree (heap / sort kernels: units C04.ball.*); the tree holds the active samples when built with useSel, all of them otherwise",
+                             "distances pairwise different (no ties)"],
+                canaries=[{"fn": "CalcMigrate::_expandPointToPointBall", "rx": r"int iech = ranks\[jech\];", "rp": "int iech = jech;", "expect": r"assertion"}])
+
+
 def units(tier):
     nmax = 6 if tier == "quick" else 10
     out = []
@@ -265,6 +383,8 @@ def units(tier):
     out.append(unit_zstar_mean())
     out.append(unit_lhs_collocated())
     out.append(unit_getlambda())
+    out.append(unit_block_single_point())
+    out.append(unit_migrate_ball())
     return out
 
 
@@ -275,12 +395,12 @@ META = {
                     "shortcut, block with one point, collocated, Schur forms) are not decidable with contracts."),
     "trusted_base": ["see C06 / C10"],
     "assumptions": [],
-    "not_covered": ["equality of optimised and plain covariance VALUES (only the cell/argument bookkeeping of the optimised kernel)", "unique vs moving neighbourhood", "cross-validation shortcut", "block kriging with one discretisation point",
-                    "collocated cokriging", "tree construction and depth-first query (pruning) of the ball tree", "CalcMigrate::_expandPointToPointBall"],
+    "not_covered": ["equality of optimised and plain covariance VALUES (only the cell/argument bookkeeping of the optimised kernel; equality observed by experiment, demos/C04_equivalences.cpp and the covariance-matrix experiment)",
+                    "unique vs moving neighbourhood and cross-validation shortcut as numerical equalities (observed by experiment only)", "collocated cokriging (known finding)", "tree construction and depth-first query (pruning) of the ball tree"],
 }
 MANIFEST = {
     "category": "other",
-    "text": "Partial: cache-consistency of the algebraic kriging calculator and of the optimised covariance evaluation, heap/sort kernels of the ball tree (units shared with C06/C10).",
+    "text": "Partial: cache-consistency of the algebraic kriging calculator and of the optimised covariance evaluation, heap/sort kernels of the ball tree (units shared with C06/C10), cell / argument bookkeeping of the optimised kernel, cross-validation addresses, means in simple kriging, weights getter, ball-tree migration = exhaustive search (bounded), single-point block discretisation (known finding).",
     "note": "Numeric equalities between two solves N/A.",
     "design_ref": "DESIGN.md 3 C04",
 }
